@@ -241,6 +241,11 @@ pub fn c19_build(raw: &Raw, _tier: Tier, _sched: bool) -> Scenario {
     }
     // one subscriber object registered in both stores, plus one private subscriber each
     let shared = b.sub(SubKind::Direct);
+    // when the shared object is released by store 0 it unsubscribes itself from store 1 as well
+    // (a callback of one store operating on the other one)
+    if knob(raw, 14) % 2 == 0 {
+        b.sub_mut(shared).on_unsub_ops = vec![Op::Unsubscribe { store: 1, sub: shared }];
+    }
     let mut forwarder = None;
     for (s, _, _) in &stores {
         b.s.prelude.push(Op::Subscribe { store: *s, sub: shared });
@@ -315,6 +320,14 @@ pub fn c19_check(scn: &Scenario, h: &History) -> Outcome {
     // every per-store oracle on each store's sub-log: nothing of A may show in B
     for m in findings_of(&p, &[Kind::Isolation, Kind::Fold, Kind::Notify, Kind::Phase, Kind::Verdict]) {
         out.viol(m);
+    }
+    // nothing arrives after an unsubscribe() returned - also when the unsubscribe of store 1 was
+    // issued from inside store 0's on_unsubscribe
+    for s in 0..2 {
+        classify_late(&d, &p, s, false, &mut out);
+    }
+    if d.ops.values().any(|o| o.th >= 2000) {
+        out.class("chained-unsubscribe-from-other-stores-callback");
     }
     let stops0: Vec<&OpRec> = d
         .ops
